@@ -143,6 +143,10 @@ pub fn check(tier: Tier) -> i32 {
         targets.push(vec![char::from_u32(cp).unwrap()]);
         targets.push(vec!['a', char::from_u32(cp).unwrap(), 'b']);
     }
+    // indicator-like words (longer than L): document-marker look-alikes, block indicators, comments
+    for w in ["---", "...", "--- a", "... a", "a ---", "a ...", "a --- b", "a ... b", "a\n---", "a\n... b", "---a", "...a", "- a", "a - b", "a ? b", "? a", "a #b", "a# b", "a:b", "a :b", "a\n- b", "a\n? b", "a\n:b", "-a", "?a", ":a", "a\n\n--- b", "%a", "a %b", "a\n%b", "a & b", "a\n&b", "a\n*b", "a\n!b", "a\n|", "a\n> b", "a\n@b", "a\n`b", "a\n\"b", "a\n'b", "a\n[b", "a\n]b", "a\n{b", "a\n,b"] {
+        targets.push(w.chars().collect());
+    }
     let (acc, done) = par_blocks(targets.len() as u64, &budget, |b, acc| {
         let t = &targets[b as usize];
         for style in 0..3u8 {
